@@ -136,6 +136,7 @@ def continue_sound(word: str, cuts: List[bool]) -> bool:
 
 
 ALPHA = os.environ.get("H_ALPHA", "ab")
+FIRST = os.environ.get("H_FIRST", "")  # non-empty: the first character is fixed per condition (conditions run in parallel); "-" = the empty word only
 
 
 def concretise(word):
@@ -158,6 +159,12 @@ def same_as_whole_fa(word: str, cuts: List[bool]) -> bool:
     post: _
     """
     # finite-alphabet variant for grammars with regex terminals (cuts inside regex matches)
+    if FIRST == "-":
+        if len(word) != 0:
+            raise IgnoreAttempt("first character fixed per condition")
+    elif FIRST:
+        if len(word) == 0 or word[0] != FIRST:
+            raise IgnoreAttempt("first character fixed per condition")
     return same_as_whole(concretise(word), cuts)
 
 
